@@ -846,11 +846,12 @@ pub(crate) fn merge_trees(
     save: &impl Fn(Tree) -> RusticResult<(TreeId, u64)>,
     summary: &mut SnapshotSummary,
 ) -> RusticResult<TreeId> {
-    // We store nodes with the index of the tree in an Binary Heap where we sort only by node name
+    // We store nodes with the index of the tree in an Binary Heap where we sort only by node name.
+    // Note: trees are ordered by the unescaped name, so this is what we have to compare here.
     struct SortedNode(Node, usize);
     impl PartialEq for SortedNode {
         fn eq(&self, other: &Self) -> bool {
-            self.0.name == other.0.name
+            self.0.name() == other.0.name()
         }
     }
     impl PartialOrd for SortedNode {
@@ -861,7 +862,7 @@ pub(crate) fn merge_trees(
     impl Eq for SortedNode {}
     impl Ord for SortedNode {
         fn cmp(&self, other: &Self) -> Ordering {
-            self.0.name.cmp(&other.0.name).reverse()
+            self.0.name().cmp(&other.0.name()).reverse()
         }
     }
 
@@ -905,7 +906,7 @@ pub(crate) fn merge_trees(
                 tree.add(merge_nodes(be, index, nodes, cmp, save, summary)?);
                 break;
             }
-            Some(SortedNode(new_node, new_num)) if node.name != new_node.name => {
+            Some(SortedNode(new_node, new_num)) if node.name() != new_node.name() => {
                 // Add node to nodes list
                 nodes.push(node);
                 // next node has other name; merge present nodes
